@@ -454,7 +454,7 @@ Proof.
   - unfold run_tx. destruct (validate_basic m) eqn:Hv; [|discriminate].
     destruct (handle _ m) as [x| |] eqn:H; try discriminate. intros [= <-].
     eapply idx_sub_handle; [| |exact Hv|exact H]; [apply kinv_clear; exact Hi|eapply idx_sub_frame; [..|exact Hix]; reflexivity].
-  - intros [= <-]. apply (fold_left_inv idx_sub).
+  - destruct (forallb pchange_valid _); [|discriminate]. intros [= <-]. apply (fold_left_inv idx_sub).
     + intros y c Hy. eapply idx_sub_keeps; [apply apply_pchange_keeps|reflexivity|exact Hy].
     + eapply idx_sub_frame; [..|exact Hix]; reflexivity.
   - destruct (end_block _) as [se| |] eqn:H; try discriminate. intros [= <-].
